@@ -107,7 +107,7 @@ var treeJSONInterp *fqx.Interp
 
 func TestTreeJSON(t *testing.T) {
 	buckets := treegen.Buckets(corpusMaxBytes)
-	harness.Rapid(t, 320, 8000, func(rt *rapid.T, c *harness.Case) {
+	harness.Rapid(t, 280, 8000, func(rt *rapid.T, c *harness.Case) {
 		n := rapid.IntRange(4, 10).Draw(rt, "ntrees")
 		type item struct {
 			top    *decode.Value
